@@ -5,16 +5,24 @@
 // Lean driver drv_c08) or "<input>\t<implementation>\t<what the property demands>" (stage race).
 //
 //	-stage hist   sequential histories of revocations (token route for certificates the CA issued and for
-//	              serials it does not know; certificate-carrying route with expiry times around the 1 h
-//	              retention boundary), forced regenerations (what a tick does) and restarts, with
+//	              serials it does not know; certificate-carrying route and token route for certificates of the CA's
+//	              certificate table with expiry times around the 1 h retention boundary, incl. long expired), forced regenerations (what a tick does) and restarts, with
 //	              generate-on-revoke on or off; every stored list (number, interval, entries) vs the model
+//	-stage sched  a chosen interleaving: a generation is parked inside GenerateCertificateRevocationList (after
+//	              listing the revoked table / before reading the stored list / before storing) by the db.AuthDB
+//	              wrapper while generate-on-revoke revocations run; afterwards every acknowledged revocation must
+//	              be in the served list and the served list must carry the largest stored number
 //	-stage race   concurrent revocations, forced regenerations and fetches; stored numbers strictly
 //	              increasing, every fetched list well-formed and signed, an acknowledged revocation visible
 package main
 
 import (
 	"context"
+	"crypto/ecdsa"
+	"crypto/elliptic"
+	"crypto/rand"
 	"crypto/x509"
+	"crypto/x509/pkix"
 	"encoding/hex"
 	"encoding/json"
 	"flag"
@@ -25,6 +33,7 @@ import (
 	"strconv"
 	"strings"
 	"sync"
+	"sync/atomic"
 	"time"
 
 	"go.step.sm/crypto/randutil"
@@ -51,8 +60,8 @@ type Op struct {
 }
 
 type CertSpec struct {
-	Kind   string // issued (by the CA, revoked by token) | unknown (a serial the CA never saw, by token) | carried (the request carries the certificate: mTLS / ACME shape)
-	ExpOff int    // carried: NotAfter = creation time + ExpOff seconds
+	Kind   string // issued (by the CA, revoked by token) | unknown (a serial the CA never saw, by token) | carried (the request carries the certificate: mTLS / ACME shape) | stored (a certificate of this CA with NotAfter at ExpOff, present in the CA's certificate table, revoked by token)
+	ExpOff int    // carried, stored: NotAfter = creation time + ExpOff seconds
 }
 
 type Hist struct {
@@ -69,9 +78,20 @@ type Race struct {
 	Fetchers int
 }
 
+// Sched: a chosen interleaving. Generation G1 is parked at Park (after its listing of the revoked
+// table returned / before it reads the stored list / before it stores); meanwhile Revs revocations
+// with generate-on-revoke run, each to completion if it can (if it blocks on the mutex G1 holds, G1
+// is released after a timeout); then G1 finishes and the served list is fetched.
+type Sched struct {
+	Park string // after-list | before-getcrl | before-storecrl
+	Pre  int    // revocations before G1 starts
+	Revs int    // revocations while G1 is parked
+}
+
 type Case struct {
-	Hist *Hist `json:",omitempty"`
-	Race *Race `json:",omitempty"`
+	Hist  *Hist  `json:",omitempty"`
+	Race  *Race  `json:",omitempty"`
+	Sched *Sched `json:",omitempty"`
 }
 
 func caseField(k *Case) string {
@@ -169,6 +189,28 @@ func (e *env) issue() *x509.Certificate {
 	return must(e.ca.SignX509(tok, csr, provisioner.SignOptions{}))[0]
 }
 
+// stored makes a real certificate of this CA (signed by the intermediate) whose NotAfter lies off
+// seconds from now and puts it into the CA's certificate table through the real db API, as if it
+// had been issued long ago: the token route then finds it by serial (db.GetCertificate).
+func (e *env) stored(off int) *x509.Certificate {
+	key := must(ecdsa.GenerateKey(elliptic.P256(), rand.Reader))
+	na := time.Now().Truncate(time.Second).Add(time.Duration(off) * time.Second)
+	cn := "old" + must(randutil.Hex(8)) + ".example.com"
+	tpl := &x509.Certificate{SerialNumber: randSerial(), Subject: pkix.Name{CommonName: cn}, DNSNames: []string{cn},
+		NotBefore: na.Add(-24 * time.Hour), NotAfter: na, KeyUsage: x509.KeyUsageDigitalSignature,
+		ExtKeyUsage: []x509.ExtKeyUsage{x509.ExtKeyUsageServerAuth, x509.ExtKeyUsageClientAuth}}
+	der := must(x509.CreateCertificate(rand.Reader, tpl, e.ca.MiniCA.Intermediate, &key.PublicKey, e.ca.MiniCA.Signer))
+	crt := must(x509.ParseCertificate(der))
+	st, ok := e.ca.DB.(db.CertificateStorer)
+	if !ok {
+		panic("database does not store certificates")
+	}
+	if err := st.StoreCertificate(crt); err != nil {
+		panic(err)
+	}
+	return crt
+}
+
 func randSerial() *big.Int {
 	b := must(randutil.Salt(12))
 	return new(big.Int).SetBytes(b)
@@ -202,8 +244,20 @@ func runHist(h *Hist) (string, string) {
 			certs[i] = e.issue()
 		case "unknown":
 			certs[i] = &x509.Certificate{SerialNumber: randSerial()}
+		case "stored":
+			certs[i] = e.stored(cs.ExpOff)
 		default:
 			certs[i] = &x509.Certificate{SerialNumber: randSerial(), NotAfter: time.Now().Truncate(time.Second).Add(time.Duration(cs.ExpOff) * time.Second)}
+		}
+	}
+	// what the record of each serial must carry: the certificate's NotAfter whenever the CA knows the
+	// certificate (issued / stored) or the request presents it (carried); zero only for unknown serials
+	wantExp := map[string]string{}
+	for i, cs := range h.Certs {
+		if cs.Kind == "unknown" {
+			wantExp[certs[i].SerialNumber.String()] = "-"
+		} else {
+			wantExp[certs[i].SerialNumber.String()] = strconv.FormatInt(certs[i].NotAfter.Unix(), 10)
 		}
 	}
 	var reqs, evs, answers, lists []string
@@ -220,7 +274,14 @@ func runHist(h *Hist) (string, string) {
 				if json.Unmarshal(en.Value, &r) != nil {
 					continue
 				}
-				if r.ExpiresAt.IsZero() || r.ExpiresAt.Unix() >= l.this-3600 {
+				// expiry as the certificate says (not as the record says): "did not expire more than the
+				// retention window before the list was generated"
+				keep := true
+				if x, ok := wantExp[en.Key]; ok && x != "-" {
+					n, _ := strconv.ParseInt(x, 10, 64)
+					keep = n >= l.this-3600
+				}
+				if keep {
 					want = append(want, c.X(en.Key)+":"+strconv.FormatInt(r.RevokedAt.Unix(), 10))
 				}
 			}
@@ -286,7 +347,11 @@ func runHist(h *Hist) (string, string) {
 			if before && code == 200 {
 				ans += "+VIOLATION=second-revocation-acknowledged"
 			}
-			thread(fmt.Sprintf("r:%s:%d:%s:%s:%d", c.X(serial), at, exp, c.B(h.GOR), l.this), ans)
+			if ok && !before && exp != wantExp[serial] {
+				ans += "+VIOLATION=record-expiry-" + exp + "-differs-from-certificate-" + wantExp[serial]
+			}
+			// the model's record carries the certificate's expiry (independent of what the code stored)
+			thread(fmt.Sprintf("r:%s:%d:%s:%s:%d", c.X(serial), at, wantExp[serial], c.B(h.GOR), l.this), ans)
 		}
 	}
 	in := fmt.Sprintf("h cache=%d reqs=%s evs=%s", h.Cache, strings.Join(reqs, ";"), c.List(evs))
@@ -437,8 +502,131 @@ func runRace(rc *Race) (string, string, string) {
 	return in, impl, "ok"
 }
 
+func runSched(sc *Sched) (string, string, string) {
+	var mu sync.Mutex
+	var stored []int64
+	var armed int32
+	parked := make(chan struct{}, 1)
+	release := make(chan struct{})
+	park := func() {
+		if atomic.CompareAndSwapInt32(&armed, 1, 0) {
+			parked <- struct{}{}
+			<-release
+		}
+	}
+	hooks := &ss.Hooks{
+		Before: func(op, key string) error {
+			if (sc.Park == "before-getcrl" && op == "getcrl") || (sc.Park == "before-storecrl" && op == "storecrl") {
+				park()
+			}
+			return nil
+		},
+		After: func(op, key string, ok bool, err error) error {
+			if op == "storecrl" && err == nil {
+				n, _ := strconv.ParseInt(key, 10, 64)
+				mu.Lock()
+				stored = append(stored, n)
+				mu.Unlock()
+			}
+			if sc.Park == "after-list" && op == "listrevoked" {
+				park()
+			}
+			return nil
+		},
+	}
+	e := newEnv(true, 600, hooks)
+	defer e.ca.Close()
+	var problems []string
+	var serials []string
+	revoke := func() {
+		crt := e.issue()
+		serials = append(serials, crt.SerialNumber.String())
+		if code := e.revokeToken(crt.SerialNumber.String()); code != 200 {
+			problems = append(problems, "revocation-refused")
+		}
+	}
+	for i := 0; i < sc.Pre; i++ {
+		revoke()
+	}
+	atomic.StoreInt32(&armed, 1)
+	g1 := make(chan error, 1)
+	go func() { g1 <- e.ca.Auth.GenerateCertificateRevocationList() }()
+	select {
+	case <-parked:
+	case err := <-g1:
+		g1 <- err
+		problems = append(problems, "generation-never-reached-"+sc.Park)
+	case <-time.After(5 * time.Second):
+		problems = append(problems, "generation-stuck")
+	}
+	released := false
+	blocked := 0
+	for i := 0; i < sc.Revs; i++ {
+		done := make(chan struct{})
+		go func() { revoke(); close(done) }()
+		select {
+		case <-done:
+		case <-time.After(120 * time.Millisecond):
+			// the revocation's own generation waits for the mutex G1 holds: let G1 go on
+			blocked++
+			if !released {
+				close(release)
+				released = true
+			}
+			<-done
+		}
+	}
+	if !released {
+		close(release)
+	}
+	select {
+	case err := <-g1:
+		if err != nil {
+			problems = append(problems, "generation-failed")
+		}
+	case <-time.After(5 * time.Second):
+		problems = append(problems, "generation-stuck")
+	}
+	// every revocation above was acknowledged before this fetch: all must be in the served list,
+	// and the served list must be the one with the largest number ever stored
+	final := e.fetch()
+	if final.bad != "" {
+		problems = append(problems, "served-list-"+final.bad)
+	}
+	have := map[string]bool{}
+	for _, en := range final.entries {
+		have[strings.SplitN(en, ":", 2)[0]] = true
+	}
+	for _, sn := range serials {
+		if !have[c.X(sn)] {
+			problems = append(problems, "acknowledged-revocation-missing-from-served-list")
+			break
+		}
+	}
+	mu.Lock()
+	for i, n := range stored {
+		if i > 0 && n <= stored[i-1] {
+			problems = append(problems, "stored-number-not-increasing")
+			break
+		}
+	}
+	for _, n := range stored {
+		if n > final.num {
+			problems = append(problems, "served-list-is-not-the-newest")
+			break
+		}
+	}
+	mu.Unlock()
+	in := fmt.Sprintf("sched park=%s pre=%d revs=%d", sc.Park, sc.Pre, sc.Revs)
+	if len(problems) > 0 {
+		return in, "VIOLATION " + strings.Join(problems, ",") + fmt.Sprintf(" blocked=%d", blocked), "ok"
+	}
+	return in, "ok", "ok"
+}
+
 func cornerHists() []*Hist {
-	all := []CertSpec{{"issued", 0}, {"unknown", 0}, {"carried", -7200}, {"carried", -3601}, {"carried", -3600}, {"carried", -3599}, {"carried", -1800}, {"carried", 3600}}
+	all := []CertSpec{{"issued", 0}, {"unknown", 0}, {"carried", -7200}, {"carried", -3601}, {"carried", -3600}, {"carried", -3599}, {"carried", -1800}, {"carried", 3600},
+		{"stored", -90000}, {"stored", -3601}, {"stored", -3599}, {"stored", 1800}}
 	var ops []Op
 	for i := range all {
 		ops = append(ops, Op{"rev", i})
@@ -460,6 +648,8 @@ func genHist(r *c.Rng) *Hist {
 			h.Certs = append(h.Certs, CertSpec{"issued", 0})
 		case 1:
 			h.Certs = append(h.Certs, CertSpec{"unknown", 0})
+		case 2:
+			h.Certs = append(h.Certs, CertSpec{"stored", c.Pick(r, []int{-90000, -7200, -3603, -3602, -3601, -3600, -3599, -3598, -3000, -1, 60, 3600})})
 		default:
 			h.Certs = append(h.Certs, CertSpec{"carried", c.Pick(r, []int{-90000, -7200, -3603, -3602, -3601, -3600, -3599, -3598, -3000, -1, 0, 60, 3600})})
 		}
@@ -495,6 +685,8 @@ func runCase(o *c.Out, k *Case) {
 			in, impl = runHist(k.Hist)
 		case k.Race != nil:
 			in, impl, want = runRace(k.Race)
+		case k.Sched != nil:
+			in, impl, want = runSched(k.Sched)
 		}
 	}()
 	if in == "" {
@@ -511,7 +703,7 @@ func main() {
 	n := flag.Int("n", 100, "number of generated cases")
 	out := flag.String("out", "", "output file")
 	replay := flag.String("replay", "", "file of lines with a case=x<hex json> field to re-run")
-	stage := flag.String("stage", "hist", "hist | race")
+	stage := flag.String("stage", "hist", "hist | sched | race")
 	flag.Parse()
 	o, err := c.NewOut(*out)
 	if err != nil {
@@ -558,6 +750,15 @@ func main() {
 		for i := 0; i < *n; i++ {
 			rr := r.Fork()
 			runCase(o, &Case{Race: &Race{GOR: !rr.Chance(1, 3), Revokers: 1 + rr.Intn(8), Gens: rr.Intn(4), Fetchers: rr.Intn(3)}})
+		}
+	case "sched":
+		parks := []string{"after-list", "before-getcrl", "before-storecrl"}
+		for _, p := range parks {
+			runCase(o, &Case{Sched: &Sched{Park: p, Pre: 1, Revs: 1}})
+		}
+		for i := 0; i < *n; i++ {
+			rr := r.Fork()
+			runCase(o, &Case{Sched: &Sched{Park: c.Pick(rr, parks), Pre: rr.Intn(3), Revs: 1 + rr.Intn(3)}})
 		}
 	default:
 		fmt.Fprintln(os.Stderr, "unknown stage")
